@@ -32,8 +32,13 @@
   --     proved for Zero from line 3 (`idcstar_zero_line3_sound`) and for Zero coming from ID*'s lines 2 and 5 (C07); Zero from
   --     deeper inside ID* is open (false today: F10/M5).
   --   theorem idcstar_terminates : idcStar … ≠ .error (.internal "fuel")
-  --     the exchange step removes one condition but the re-association of merged nodes may add keys to both dicts; no
-  --     decreasing measure has been proved.  Checked on every generated input by the correspondence.
+  --     The two inner ID* calls terminate (Props/C07 `idstar_never_out_of_fuel`).  For the line-4 recursion of IDC* itself no
+  --     decreasing measure is proved, and the obvious ones FAIL on concrete inputs: the re-association of merged nodes
+  --     (`get_new_outcomes_and_conditions`, by variable NAME) can put a new key into BOTH dicts, so neither |conditions| nor
+  --     |outcomes| + |conditions| nor the number of distinct keys decreases at every step — e.g. graph B → C, event
+  --     outcomes {C_{a,b,c'} = c', B_{a',b,c'} = b'}, conditions {A_{a,b,c'} = a, C_{a} = c}: the next call has 3 outcomes and
+  --     2 conditions, 2 of them shared.  On 50 000 random inputs (≤ 6 nodes, ≤ 4 worlds) the recursion depth never exceeded
+  --     |conditions| + 1 (max 4) and no RecursionError occurred; checked on every generated input by the correspondence.
 -/
 import Y0.Lemmas.CfIdcStar
 import Y0.Props.C07
